@@ -1007,3 +1007,244 @@ VARIANTS += [
              (R, 'content.FetchAll(ctx, fetcher, sigManifestDesc)', 'fetchVerified(ctx, fetcher, sigManifestDesc)'),
              tail(INFO_HELPER.replace('content.FetchAll(', 'fetchVerified(') + '\n' + FETCHV + '\n' + sub(SAMEC, ' && a.Digest == b.Digest', ''))]),
 ]
+
+
+# ---------------------------------------------------------------------------------------------------------------
+# Third pass. Class P: the per-referrer filter (subject, artifact type) decided by a predicate — a method of the
+# record the decode helper hands back (value or pointer receiver), a function over the fields, over the element,
+# answering "keep" or "skip", written with guard clauses or as one boolean expression. Class L: the lookup's result
+# parked in a local, checks moved between the lookup and its caller, `switch` instead of `if` chains.
+# ---------------------------------------------------------------------------------------------------------------
+
+LOOP_PRED = r'''	for _, node := range predecessors {
+		if node.MediaType != artifactspec.MediaTypeArtifactManifest && node.MediaType != ocispec.MediaTypeImageManifest {
+			// neither an OCI artifact manifest nor an OCI image manifest
+			continue
+		}
+		info, err := fetchReferrerInfo(ctx, target, node)
+		if err != nil {
+			return nil, err
+		}
+		// only keep nodes of "application/vnd.cncf.notary.signature" that refer to desc
+		if !info.isSignatureOf(desc) {
+			continue
+		}
+		node.ArtifactType = info.artifactType
+		node.Annotations = info.annotations
+		results = append(results, node)
+	}
+'''
+PRED_METHOD = r'''
+// isSignatureOf reports whether the referrer points at subject and is of the
+// notation signature artifact type.
+func (r referrerInfo) isSignatureOf(subject ocispec.Descriptor) bool {
+	if r.subject == nil || !content.Equal(*r.subject, subject) {
+		return false
+	}
+	return r.artifactType == ArtifactTypeNotation
+}
+'''
+PRED_METHOD_EXPR = r'''
+func (r referrerInfo) isSignatureOf(subject ocispec.Descriptor) bool {
+	return r.subject != nil && content.Equal(*r.subject, subject) && r.artifactType == ArtifactTypeNotation
+}
+'''
+PRED_METHOD_GUARDS = r'''
+func (r referrerInfo) isSignatureOf(subject ocispec.Descriptor) bool {
+	if r.artifactType != ArtifactTypeNotation {
+		return false
+	}
+	if r.subject == nil {
+		return false
+	}
+	if !content.Equal(*r.subject, subject) {
+		return false
+	}
+	return true
+}
+'''
+PRED_METHOD_PTR = PRED_METHOD.replace('func (r referrerInfo) isSignatureOf', 'func (r *referrerInfo) isSignatureOf')
+PRED_NEG = r'''
+// notSignatureOf reports whether the referrer must be skipped
+func (r referrerInfo) notSignatureOf(subject ocispec.Descriptor) bool {
+	if r.subject == nil || !content.Equal(*r.subject, subject) {
+		return true
+	}
+	return r.artifactType != ArtifactTypeNotation
+}
+'''
+PRED_FIELDS = r'''
+// isNotationSignatureOf reports whether a referrer with the given subject and artifact type is a notation
+// signature of want
+func isNotationSignatureOf(referrerSubject *ocispec.Descriptor, referrerType string, want ocispec.Descriptor) bool {
+	if referrerSubject == nil {
+		return false
+	}
+	if !content.Equal(*referrerSubject, want) {
+		return false
+	}
+	return referrerType == ArtifactTypeNotation
+}
+'''
+PRED_TWO = r'''
+func (r referrerInfo) refersTo(subject ocispec.Descriptor) bool {
+	return r.subject != nil && content.Equal(*r.subject, subject)
+}
+
+func (r referrerInfo) isNotation() bool {
+	switch r.artifactType {
+	case ArtifactTypeNotation:
+		return true
+	}
+	return false
+}
+'''
+PRED_CALL = '\t\tif !info.isSignatureOf(desc) {\n\t\t\tcontinue\n\t\t}\n'
+# the predicate over the element, after the decoded type was copied onto it
+LOOP_PRED_NODE = sub(sub(LOOP_PRED, PRED_CALL, '\t\tif info.subject == nil || !content.Equal(*info.subject, desc) {\n\t\t\tcontinue\n\t\t}\n'),
+                     '\t\tnode.Annotations = info.annotations\n', '\t\tnode.Annotations = info.annotations\n\t\tif !isNotationNode(node) {\n\t\t\tcontinue\n\t\t}\n')
+PRED_NODE = r'''
+func isNotationNode(d ocispec.Descriptor) bool {
+	return d.ArtifactType == ArtifactTypeNotation
+}
+'''
+
+def pred(loop, *helpers, info=None):
+    return dict(file=R, find=LOOP0, replace=loop, edits=[tail((info or INFO_HELPER) + ''.join(helpers))])
+
+VARIANTS += [
+ dict(name='p3-filter-predicate-method', expect='silent', **pred(LOOP_PRED, PRED_METHOD)),
+ dict(name='p3-filter-predicate-method-one-expression', expect='silent', **pred(LOOP_PRED, PRED_METHOD_EXPR)),
+ dict(name='p3-filter-predicate-method-guard-clauses', expect='silent', **pred(LOOP_PRED, PRED_METHOD_GUARDS)),
+ dict(name='p3-filter-predicate-negative', expect='silent',
+      **pred(sub(LOOP_PRED, '\t\tif !info.isSignatureOf(desc) {', '\t\tif info.notSignatureOf(desc) {'), PRED_NEG)),
+ dict(name='p3-filter-predicate-over-fields', expect='silent',
+      **pred(sub(LOOP_PRED, '!info.isSignatureOf(desc)', '!isNotationSignatureOf(info.subject, info.artifactType, desc)'), PRED_FIELDS)),
+ dict(name='p3-filter-predicate-pointer-receiver', expect='silent', **pred(LOOP_PRED, PRED_METHOD_PTR)),
+ dict(name='p3-filter-predicate-pointer-record', expect='silent', **pred(LOOP_PRED, PRED_METHOD_PTR, info=INFO_HELPER_PTR)),
+ dict(name='p3-filter-two-predicates', expect='silent',
+      **pred(sub(LOOP_PRED, PRED_CALL, '\t\tif !info.refersTo(desc) || !info.isNotation() {\n\t\t\tcontinue\n\t\t}\n'), PRED_TWO)),
+ dict(name='p3-filter-predicate-over-element', expect='silent', **pred(LOOP_PRED_NODE, PRED_NODE)),
+ dict(name='p3-filter-predicate-nested-ok', expect='silent',
+      **pred(LOOP_PRED.replace(PRED_CALL, '\t\tif info.isSignatureOf(desc) {\n\t\t\tnode.ArtifactType = info.artifactType\n\t\t\tnode.Annotations = info.annotations\n\t\t\tresults = append(results, node)\n\t\t}\n')
+             .replace('\t\tnode.ArtifactType = info.artifactType\n\t\tnode.Annotations = info.annotations\n\t\tresults = append(results, node)\n', ''), PRED_METHOD)),
+ # the class broken
+ dict(name='p3-filter-predicate-type-test-dropped', expect='flagged(artifact-type)',
+      **pred(LOOP_PRED, sub(PRED_METHOD, '\treturn r.artifactType == ArtifactTypeNotation\n', '\treturn true\n'))),
+ dict(name='p3-filter-predicate-type-of-requested-descriptor', expect='flagged(artifact-type)',
+      **pred(LOOP_PRED, sub(PRED_METHOD, '\treturn r.artifactType == ArtifactTypeNotation\n', '\treturn subject.ArtifactType == ArtifactTypeNotation\n')),
+      why='the predicate compares the artifact type of the descriptor asked for, not the referrer\'s'),
+ dict(name='p3-filter-predicate-early-accept', expect='flagged(artifact-type)',
+      **pred(LOOP_PRED, sub(PRED_METHOD, '\treturn r.artifactType == ArtifactTypeNotation\n', '\tif r.artifactType == "" {\n\t\treturn true\n\t}\n\treturn r.artifactType == ArtifactTypeNotation\n')),
+      why='one answer `true` of the predicate passes no type test'),
+ dict(name='p3-filter-predicate-or-in-expression', expect='flagged(list/)',
+      **pred(LOOP_PRED, sub(PRED_METHOD_EXPR, '&& r.artifactType == ArtifactTypeNotation', '&& (r.artifactType == ArtifactTypeNotation || len(r.annotations) > 0)'))),
+ dict(name='p3-filter-predicate-subject-nil-accepted', expect='flagged(subject-equality)',
+      **pred(LOOP_PRED, sub(PRED_METHOD, 'if r.subject == nil || !content.Equal(*r.subject, subject) {', 'if r.subject != nil && !content.Equal(*r.subject, subject) {'))),
+ dict(name='p3-filter-predicate-subject-test-dropped', expect='flagged(subject-equality)',
+      **pred(LOOP_PRED, sub(PRED_METHOD, '\tif r.subject == nil || !content.Equal(*r.subject, subject) {\n\t\treturn false\n\t}\n', ''))),
+ dict(name='p3-filter-predicate-subject-equal-to-itself', expect='flagged(subject-equality)',
+      **pred(LOOP_PRED, sub(PRED_METHOD, 'content.Equal(*r.subject, subject)', 'content.Equal(*r.subject, *r.subject)'))),
+ dict(name='p3-filter-predicate-answer-ignored', expect='flagged(list/)',
+      **pred(sub(LOOP_PRED, PRED_CALL, '\t\t_ = info.isSignatureOf(desc)\n'), PRED_METHOD)),
+ dict(name='p3-filter-predicate-answer-inverted', expect='flagged(list/)',
+      **pred(sub(LOOP_PRED, '\t\tif !info.isSignatureOf(desc) {', '\t\tif info.isSignatureOf(desc) {'), PRED_METHOD)),
+ dict(name='p3-filter-predicate-on-made-up-record', expect='flagged(artifact-type)',
+      **pred(sub(LOOP_PRED, '!info.isSignatureOf(desc)', '!(referrerInfo{artifactType: ArtifactTypeNotation, subject: info.subject}).isSignatureOf(desc)'), PRED_METHOD),
+      why='the predicate is asked about a record made up on the spot, not about the decoded one'),
+ dict(name='p3-filter-predicate-over-fields-type-constant', expect='flagged(artifact-type)',
+      **pred(sub(LOOP_PRED, '!info.isSignatureOf(desc)', '!isNotationSignatureOf(info.subject, ArtifactTypeNotation, desc)'), PRED_FIELDS),
+      why='the caller hands the predicate the notation type itself'),
+ dict(name='p3-filter-predicate-over-fields-subject-of-node', expect='flagged(subject-equality)',
+      **pred(sub(LOOP_PRED, '!info.isSignatureOf(desc)', '!isNotationSignatureOf(&node, info.artifactType, desc)'), PRED_FIELDS)),
+ dict(name='p3-filter-predicate-pointer-receiver-writes-record', expect='flagged(artifact-type)',
+      **pred(LOOP_PRED, sub(PRED_METHOD_PTR, '\treturn r.artifactType == ArtifactTypeNotation\n', '\tif r.artifactType == "" {\n\t\tr.artifactType = ArtifactTypeNotation\n\t}\n\treturn r.artifactType == ArtifactTypeNotation\n')),
+      why='the predicate repairs the record it is asked about: untyped referrers pass and are listed as signatures'),
+ dict(name='p3-filter-predicate-type-rewritten-after-test', expect='flagged(artifact-type)',
+      **pred(sub(LOOP_PRED, '\t\tnode.ArtifactType = info.artifactType\n', '\t\tnode.ArtifactType = ArtifactTypeNotation\n'), sub(PRED_METHOD, '\treturn r.artifactType == ArtifactTypeNotation\n', '\treturn true\n'))),
+ dict(name='p3-filter-two-predicates-one-dropped', expect='flagged(subject-equality)',
+      **pred(sub(LOOP_PRED, PRED_CALL, '\t\tif !info.isNotation() {\n\t\t\tcontinue\n\t\t}\n'), PRED_TWO)),
+ dict(name='p3-filter-two-predicates-or', expect='flagged(list/)',
+      **pred(sub(LOOP_PRED, PRED_CALL, '\t\tif !info.refersTo(desc) && !info.isNotation() {\n\t\t\tcontinue\n\t\t}\n'), PRED_TWO),
+      why='either test suffices'),
+ dict(name='p3-filter-predicate-over-element-before-copy', expect='flagged(artifact-type)',
+      **pred(sub(sub(LOOP_PRED_NODE, '\t\tif !isNotationNode(node) {\n\t\t\tcontinue\n\t\t}\n', ''), '\t\tnode.ArtifactType = info.artifactType\n', '\t\tif !isNotationNode(node) {\n\t\t\tcontinue\n\t\t}\n\t\tnode.ArtifactType = info.artifactType\n'), PRED_NODE),
+      why='the element is tested while it still carries the predecessor\'s own artifact type'),
+]
+
+# -- class L: the lookup
+LOOKUP_MT0 = '\tif sigManifestDesc.MediaType != artifactspec.MediaTypeArtifactManifest && sigManifestDesc.MediaType != ocispec.MediaTypeImageManifest {\n\t\treturn ocispec.Descriptor{}, fmt.Errorf("sigManifestDesc.MediaType requires %q or %q, got %q", artifactspec.MediaTypeArtifactManifest, ocispec.MediaTypeImageManifest, sigManifestDesc.MediaType)\n\t}\n'
+LOOKUP_MT_SWITCH = '\tswitch sigManifestDesc.MediaType {\n\tcase artifactspec.MediaTypeArtifactManifest, ocispec.MediaTypeImageManifest:\n\tdefault:\n\t\treturn ocispec.Descriptor{}, fmt.Errorf("sigManifestDesc.MediaType requires %q or %q, got %q", artifactspec.MediaTypeArtifactManifest, ocispec.MediaTypeImageManifest, sigManifestDesc.MediaType)\n\t}\n'
+LOOKUP_MCAP = '\tif sigManifestDesc.Size > maxManifestSizeLimit {\n\t\treturn ocispec.Descriptor{}, fmt.Errorf("signature manifest too large: %d bytes", sigManifestDesc.Size)\n\t}\n'
+LOOKUP_DEC0 = '\t// OCI image manifest\n\tif sigManifestDesc.MediaType == ocispec.MediaTypeImageManifest {\n\t\tvar sigManifest ocispec.Manifest'
+LOOKUP_DEC_SWITCH = '\tswitch sigManifestDesc.MediaType {\n\tcase ocispec.MediaTypeImageManifest:\n\t\tvar sigManifest ocispec.Manifest'
+LOOKUP_ELSE0 = '\t} else { // OCI artifact manifest\n'
+LOOKUP_ELSE_DEFAULT = '\tdefault: // OCI artifact manifest\n'
+LOOKUP_RET0 = '\treturn signatureBlobs[0], nil\n}\n'
+LOOKUP_RET_LOCAL_CAP = '\tsigBlobDesc := signatureBlobs[0]\n\tif sigBlobDesc.Size > maxBlobSizeLimit {\n\t\treturn ocispec.Descriptor{}, fmt.Errorf("signature blob too large: %d bytes", sigBlobDesc.Size)\n\t}\n\treturn sigBlobDesc, nil\n}\n'
+LOOKUP_RET_LOCAL = '\tsigBlobDesc := signatureBlobs[0]\n\treturn sigBlobDesc, nil\n}\n'
+LOOKUP_RET_VAR = '\tvar sigBlobDesc ocispec.Descriptor\n\tsigBlobDesc = signatureBlobs[0]\n\treturn sigBlobDesc, nil\n}\n'
+# the lookup of the third batch: both `if`s as switches, the result parked in a local, the blob cap inside
+LOOKUP_SW = sub(sub(sub(sub(LOOKUP0, LOOKUP_MT0, LOOKUP_MT_SWITCH), LOOKUP_DEC0, LOOKUP_DEC_SWITCH), LOOKUP_ELSE0, LOOKUP_ELSE_DEFAULT), LOOKUP_RET0, LOOKUP_RET_LOCAL_CAP)
+FETCH_CALL0 = '\tsigBlobDesc, err := c.getSignatureBlobDesc(ctx, desc)\n'
+FETCH_MT_UP = ('\tif desc.MediaType != artifactspec.MediaTypeArtifactManifest && desc.MediaType != ocispec.MediaTypeImageManifest {\n'
+               '\t\treturn nil, ocispec.Descriptor{}, fmt.Errorf("sigManifestDesc.MediaType requires %q or %q, got %q", artifactspec.MediaTypeArtifactManifest, ocispec.MediaTypeImageManifest, desc.MediaType)\n\t}\n')
+FETCH_MCAP_UP = '\tif desc.Size > maxManifestSizeLimit {\n\t\treturn nil, ocispec.Descriptor{}, fmt.Errorf("signature manifest too large: %d bytes", desc.Size)\n\t}\n'
+
+VARIANTS += [
+ dict(name='p3-lookup-switches-local-blob-cap-inside', file=R, expect='silent', find=LOOKUP0, replace=LOOKUP_SW, edits=[(R, BLOBCAP, '')]),
+ dict(name='p3-lookup-result-in-local', file=R, expect='silent', find=LOOKUP_RET0, replace=LOOKUP_RET_LOCAL),
+ dict(name='p3-lookup-result-in-declared-variable', file=R, expect='silent', find=LOOKUP_RET0, replace=LOOKUP_RET_VAR),
+ dict(name='p3-lookup-blob-cap-in-both', file=R, expect='silent', find=LOOKUP_RET0, replace=LOOKUP_RET_LOCAL_CAP),
+ dict(name='p3-lookup-manifest-cap-in-caller', file=R, expect='silent', find=LOOKUP_MCAP, replace='', edits=[(R, FETCH_CALL0, FETCH_MCAP_UP + FETCH_CALL0)]),
+ dict(name='p3-lookup-media-type-test-in-caller', file=R, expect='silent', find=LOOKUP_MT0, replace='', edits=[(R, FETCH_CALL0, FETCH_MT_UP + FETCH_CALL0)]),
+ # broken
+ dict(name='p3-lookup-switches-local-blob-cap-nowhere', file=R, expect='flagged(cap-before-fetch)', find=LOOKUP0,
+      replace=sub(LOOKUP_SW, LOOKUP_RET_LOCAL_CAP, LOOKUP_RET_LOCAL), edits=[(R, BLOBCAP, '')]),
+ dict(name='p3-lookup-switches-local-blob-cap-on-manifest', file=R, expect='flagged(cap-before-fetch)', find=LOOKUP0,
+      replace=sub(LOOKUP_SW, '\tif sigBlobDesc.Size > maxBlobSizeLimit {', '\tif sigManifestDesc.Size > maxBlobSizeLimit {'), edits=[(R, BLOBCAP, '')]),
+ dict(name='p3-lookup-switches-local-blob-cap-after-return-path', file=R, expect='flagged(cap-before-fetch)', find=LOOKUP0,
+      replace=sub(LOOKUP_SW, '\tif sigBlobDesc.Size > maxBlobSizeLimit {', '\tif sigBlobDesc.MediaType == "" && sigBlobDesc.Size > maxBlobSizeLimit {'), edits=[(R, BLOBCAP, '')],
+      why='the cap is applied to some blobs only'),
+ dict(name='p3-lookup-local-size-rewritten', file=R, expect='flagged(lookup/exactly-one-blob)', find=LOOKUP0,
+      replace=sub(LOOKUP_SW, '\tsigBlobDesc := signatureBlobs[0]\n', '\tsigBlobDesc := signatureBlobs[0]\n\tif sigBlobDesc.Size > maxBlobSizeLimit {\n\t\tsigBlobDesc.Size = maxBlobSizeLimit\n\t}\n'), edits=[(R, BLOBCAP, '')],
+      why='the local is edited before it is returned: the descriptor handed to the fetch is not the manifest\'s own'),
+ dict(name='p3-lookup-local-replaced', file=R, expect='flagged(lookup/exactly-one-blob)', find=LOOKUP_RET0,
+      replace='\tsigBlobDesc := signatureBlobs[0]\n\tif sigBlobDesc.MediaType == "" {\n\t\tsigBlobDesc = sigManifestDesc\n\t}\n\treturn sigBlobDesc, nil\n}\n'),
+ dict(name='p3-lookup-local-of-last-element', file=R, expect='flagged(lookup/exactly-one-blob)', find=LOOKUP0,
+      replace=sub(sub(LOOKUP_SW, '\tsigBlobDesc := signatureBlobs[0]\n', '\tsigBlobDesc := signatureBlobs[len(signatureBlobs)-1]\n'), '\tif len(signatureBlobs) != 1 {', '\tif len(signatureBlobs) == 0 {'), edits=[(R, BLOBCAP, '')]),
+ dict(name='p3-lookup-switch-accepts-any-media-type', file=R, expect='flagged(lookup/media-type)', find=LOOKUP0,
+      replace=sub(LOOKUP_SW, '\tcase artifactspec.MediaTypeArtifactManifest, ocispec.MediaTypeImageManifest:\n\tdefault:\n', '\tcase artifactspec.MediaTypeArtifactManifest, ocispec.MediaTypeImageManifest:\n\tcase "":\n'), edits=[(R, BLOBCAP, '')]),
+ dict(name='p3-lookup-switch-decode-crossed', file=R, expect='flagged(lookup/decode-matches-media-type)', find=LOOKUP0,
+      replace=sub(LOOKUP_SW, '\tcase ocispec.MediaTypeImageManifest:\n\t\tvar sigManifest ocispec.Manifest', '\tcase artifactspec.MediaTypeArtifactManifest:\n\t\tvar sigManifest ocispec.Manifest'), edits=[(R, BLOBCAP, '')]),
+ dict(name='p3-lookup-manifest-cap-in-caller-after-lookup', file=R, expect='flagged(cap-before-fetch)', find=LOOKUP_MCAP, replace='',
+      edits=[(R, FETCH_CALL0 + '\tif err != nil {\n\t\treturn nil, ocispec.Descriptor{}, err\n\t}\n', FETCH_CALL0 + '\tif err != nil {\n\t\treturn nil, ocispec.Descriptor{}, err\n\t}\n' + FETCH_MCAP_UP)],
+      why='the manifest is capped after it has been fetched and decoded'),
+ dict(name='p3-lookup-media-type-test-in-caller-one-type-only', file=R, expect='flagged(lookup/)', find=LOOKUP_MT0, replace='',
+      edits=[(R, FETCH_CALL0, sub(FETCH_MT_UP, 'desc.MediaType != artifactspec.MediaTypeArtifactManifest && desc.MediaType != ocispec.MediaTypeImageManifest', 'desc.MediaType == ""') + FETCH_CALL0)]),
+ dict(name='p3-lookup-media-type-test-in-caller-other-descriptor', file=R, expect='flagged(lookup/)', find=LOOKUP_MT0, replace='',
+      edits=[(R, FETCH_CALL0 + '\tif err != nil {\n\t\treturn nil, ocispec.Descriptor{}, err\n\t}\n', FETCH_CALL0 + '\tif err != nil {\n\t\treturn nil, ocispec.Descriptor{}, err\n\t}\n' + FETCH_MT_UP.replace('desc.MediaType', 'sigBlobDesc.MediaType'))],
+      why='the caller tests the media type of the blob, the manifest\'s is unconstrained'),
+]
+
+# -- class P, further members: the record built by a constructor function; the predicate as a closure
+INFO_CTOR = r'''
+func newReferrerInfo(subject *ocispec.Descriptor, artifactType string, annotations map[string]string) referrerInfo {
+	return referrerInfo{subject: subject, artifactType: artifactType, annotations: annotations}
+}
+'''
+INFO_HELPER_CTOR = (sub(sub(INFO_HELPER, '\t\treturn referrerInfo{\n\t\t\tsubject:      artifact.Subject,\n\t\t\tartifactType: artifact.ArtifactType,\n\t\t\tannotations:  artifact.Annotations,\n\t\t}, nil\n',
+                            '\t\treturn newReferrerInfo(artifact.Subject, artifact.ArtifactType, artifact.Annotations), nil\n'),
+                        '\treturn referrerInfo{\n\t\tsubject:      image.Subject,\n\t\tartifactType: image.Config.MediaType,\n\t\tannotations:  image.Annotations,\n\t}, nil\n',
+                        '\treturn newReferrerInfo(image.Subject, image.Config.MediaType, image.Annotations), nil\n') + INFO_CTOR)
+LOOP_PRED_CLOSURE = sub(sub(LOOP_PRED, '\tfor _, node := range predecessors {\n', '\tisSignature := func(r referrerInfo) bool {\n\t\tif r.subject == nil || !content.Equal(*r.subject, desc) {\n\t\t\treturn false\n\t\t}\n\t\treturn r.artifactType == ArtifactTypeNotation\n\t}\n\tfor _, node := range predecessors {\n'),
+                        '!info.isSignatureOf(desc)', '!isSignature(info)')
+VARIANTS += [
+ dict(name='p3-info-constructor', expect='silent', **pred(LOOP_PRED, PRED_METHOD, info=INFO_HELPER_CTOR)),
+ dict(name='p3-info-constructor-inline-filter', expect='silent', **pred(LOOP_INFO, info=INFO_HELPER_CTOR)),
+ dict(name='p3-info-constructor-arguments-crossed', expect='flagged(list/image-manifest/artifact-type-origin)',
+      **pred(LOOP_PRED, PRED_METHOD, info=sub(INFO_HELPER_CTOR, 'newReferrerInfo(image.Subject, image.Config.MediaType, image.Annotations)', 'newReferrerInfo(image.Subject, image.ArtifactType, image.Annotations)'))),
+ dict(name='p3-info-constructor-drops-subject', expect='flagged(subject-equality)',
+      **pred(LOOP_PRED, PRED_METHOD, info=sub(INFO_HELPER_CTOR, 'return referrerInfo{subject: subject, artifactType: artifactType, annotations: annotations}', 'return referrerInfo{subject: &ocispec.Descriptor{}, artifactType: artifactType, annotations: annotations}'))),
+ dict(name='p3-filter-predicate-closure', expect='silent', **pred(LOOP_PRED_CLOSURE)),
+]
